@@ -133,10 +133,10 @@ strvector *StrVectorExtend(strvector *s1, strvector *s2)
   strvector *sext;
   NewStrVector(&sext, (*s1).size+(*s2).size);
   for(i = 0; i < (*s1).size; i++) {
-      (*sext).data[i] = (*s1).data[i];
+      setStr(sext, i, (*s1).data[i]);
   }
   for(i = 0; i < (*s2).size; i++) {
-      (*sext).data[i+(*s1).size] = (*s2).data[i];
+      setStr(sext, i+(*s1).size, (*s2).data[i]);
   }
   return sext;
 }
